@@ -113,12 +113,31 @@ def _attribute(node, sc):
     return attr_of(base, node.attr, sc)
 
 
+def _pure_property(cls_short, attr):
+    """A property whose contract is `pure` with ensures {"def": "result == EXPR"}: returns EXPR's AST."""
+    real = decl.CLASSES[cls_short].real()
+    for c in real.__mro__:
+        if attr in c.__dict__:
+            key = f"{c.__module__}:{c.__qualname__}.{attr}"
+            con = decl.CONTRACTS.get(key)
+            if con is not None and con.pure and "def" in con.ensures:
+                node = parse(con.ensures["def"])
+                if isinstance(node, ast.Compare) and isinstance(node.left, ast.Name) and node.left.id == "result" \
+                        and len(node.ops) == 1 and isinstance(node.ops[0], ast.Eq):
+                    return node.comparators[0]
+            return None
+    return None
+
+
 def attr_of(base, attr, sc):
     if isinstance(base.t, TOpt):
         base = base.v[1]  # spec-level: caller guards with `is not None`
     if isinstance(base.t, TRef):
         d, _ = decl.find_field(base.t.cls, attr)
         if d is None:
+            pc = _pure_property(base.t.cls, attr)
+            if pc is not None:
+                return sv(pc, sc.with_env({"self": base}))
             sub, _ = decl.find_field_down(base.t.cls, attr)
             if sub is not None:  # spec-level downcast (the spec guards it with is_a)
                 return heapops.read_field(sc.heap, Val(TRef(sub.short), base.v), attr)
@@ -387,6 +406,19 @@ def _call(node, sc):
         dflt = m.t.v.default_terms()[0]
         k = z3.Const(fresh_name("k"), m.t.k.sort())
         return Val(m.t, (z3.SetIntersect(m.v[0], s.v), z3.Lambda([k], z3.If(z3.Select(s.v, k), z3.Select(m.v[1], k), dflt))))
+    if name == "rev":
+        x = args[0]
+        if isinstance(x.t, TList):
+            x = Val(TSeq(x.t.e), heapops.list_seq(sc.heap, x))
+        return Val(x.t, ops.seq_rev(x.v))
+    if name == "mapf":  # mapf(seq_of_refs, "field")
+        x = args[0]
+        if isinstance(x.t, TList):
+            x = Val(TSeq(x.t.e), heapops.list_seq(sc.heap, x))
+        fname = node.args[1].value
+        d, ft = decl.find_field(x.t.e.cls, fname)
+        arr = sc.heap.get(heapops.field_keys(d.short, fname, ft)[0], ft.sort())
+        return Val(TSeq(ft), ops.seq_map_field(arr, x.v, ft.sort()))
     if name == "pw":
         return Val(NUM, ops.power(to_real(args[0]), to_real(args[1])))
     if name == "abs":
